@@ -199,8 +199,13 @@ pub fn judge_stitched(target_idx: usize, name_idx: usize, scratch: &Scratch, n: 
     t0.insert(format!("{l0}/sub/newdir/leaf"), Node::file(b"leaf?", T0 + 8));
     t0.insert(format!("{l0}/sub/sl"), Node::symlink("deep", T0 + 9));
     t0.insert("zz".into(), Node::file(b"zz", T0 + 4));
+    // a plain file that becomes a symlink as well (sorting before and after the directory)
+    t0.insert("j".into(), Node::file(b"old content of j", T0 + 14).with_mode(0o666));
+    t0.insert("p".into(), Node::file(b"old content of p", T0 + 15).with_mode(0o666));
     let mut t1 = empty_tree();
     t1.insert(l0.into(), Node::symlink(&target, T0 + 11));
+    t1.insert("j".into(), Node::symlink(&target, T0 + 16));
+    t1.insert("p".into(), Node::symlink(&target, T0 + 17));
     // other symlinks that sort between /l0 and the old entries below it, and before it
     t1.insert("k".into(), Node::symlink("zz", T0 + 12));
     t1.insert("m".into(), Node::symlink("zz", T0 + 13));
@@ -263,6 +268,30 @@ pub fn judge_stitched(target_idx: usize, name_idx: usize, scratch: &Scratch, n: 
         n.fetch_add(1, AO::Relaxed);
         let at2 = format!("{at}; restored again over the result with overwrite: {}", ro2.describe().chars().take(200).collect::<String>());
         v.extend(check_outside(&sandbox, &before, &at2, "interrupted-version-with-dir-turned-symlink-restored-twice"));
+        // and with each single read of an index hunk failing during the restore (a reader that
+        // loses its place in the older version must still not write through the new links)
+        let probe_dest = sandbox.join("dest");
+        let _ = std::fs::remove_dir_all(&probe_dest);
+        let ic0 = Icpt::new(&a2, Plan::none());
+        let _ = run::do_restore(&a2, &probe_dest, &RestoreArgs::band(1), Some(&ic0), Flavor::Current);
+        let hunk_reads: Vec<usize> = ic0
+            .take_log()
+            .iter()
+            .filter(|r| r.verb == conserve::transport::record::Verb::Read && r.path.contains("/i/"))
+            .map(|r| r.idx)
+            .collect();
+        for k in hunk_reads {
+            if outside(&sandbox).ok().as_ref() != Some(&before) {
+                let _ = std::fs::remove_dir_all(&sandbox);
+                tree::materialize(&sentinels(), &sandbox);
+            }
+            let _ = std::fs::remove_dir_all(&probe_dest);
+            let ic = Icpt::new(&a2, Plan::fail1(k, conserve::transport::ErrorKind::Other));
+            let ro3 = run::do_restore(&a2, &probe_dest, &RestoreArgs::band(1), Some(&ic), Flavor::Current);
+            n.fetch_add(1, AO::Relaxed);
+            let at3 = format!("{at}; restored with storage operation {k} (the read of an index hunk) failing: {}", ro3.describe().chars().take(160).collect::<String>());
+            v.extend(check_outside(&sandbox, &before, &at3, "interrupted-version-restored-with-a-failing-index-read"));
+        }
         // put the sentinels back if something was damaged, so later crash points are judged afresh
         if outside(&sandbox).ok().as_ref() != Some(&before) {
             let _ = std::fs::remove_dir_all(&sandbox);
